@@ -155,7 +155,7 @@ def main(argv=None):
             cases = cases[: args.limit]
     ids = [c["id"] for c in cases]
     assert len(set(ids)) == len(ids), "case ids must be unique"
-    timeout_s = float(getattr(mod, "TIMEOUT", {}).get(tier, 3000 if tier == "thorough" else 900))
+    timeout_s = float(os.environ.get("PDV_TIMEOUT") or getattr(mod, "TIMEOUT", {}).get(tier, 3000 if tier == "thorough" else 900))
     bins = _shard(cases, max(1, min(args.jobs, MAX_JOBS)))
     results, problems = _run_workers(prop, bins, timeout_s)
 
